@@ -55,24 +55,22 @@ theorem arraySplit_none (a : Arr α) (zero : α) (parts : Nat) (h : 1 ≤ a.ndim
 
 /-- **`concatenate` along axis `k`** of inputs that agree off the axis -/
 theorem concatenate_coord (zero : α) (k : Nat) (a0 : Arr α) (rest : List (Arr α))
-    (h : ∀ b ∈ a0 :: rest, b.WF ∧ k < b.ndim ∧ b.shape.eraseIdx k = a0.shape.eraseIdx k)
-    (hnz : 0 ∉ a0.shape.eraseIdx k) :
+    (h : ∀ b ∈ a0 :: rest, b.WF ∧ k < b.ndim ∧ b.shape.eraseIdx k = a0.shape.eraseIdx k) :
     ∃ r, concatenate (a0 :: rest) zero (some k) = .ok r ∧
       r.shape = a0.shape.set k (((a0 :: rest).map (axLen k)).sum) ∧ r.WF ∧
       ∀ i (hi : i < (a0 :: rest).length) c, inRange ((a0 :: rest)[i]).shape c = true →
         r.get? (c.set k (offsetOf k (a0 :: rest) i + c.getD k 0)) = ((a0 :: rest)[i]).get? c := by
   have hk0 : k < a0.shape.length := (h a0 List.mem_cons_self).2.1
   obtain ⟨hs, hPl⟩ := shape_cut a0.shape k hk0
-  obtain ⟨hP, hQ⟩ := not_mem_of_eraseIdx _ _ hnz
   have her : a0.shape.eraseIdx k = a0.shape.take k ++ a0.shape.drop (k + 1) := List.eraseIdx_eq_take_drop_succ _ _
-  generalize a0.shape.take k = P at hs hPl hP her
-  generalize a0.shape.drop (k + 1) = Q at hs hQ her
+  generalize a0.shape.take k = P at hs hPl her
+  generalize a0.shape.drop (k + 1) = Q at hs her
   subst hPl
   have hcut : ∀ b ∈ a0 :: rest, b.WF ∧ b.shape = P ++ axLen P.length b :: Q := by
     intro b hb
     obtain ⟨g1, g2, g3⟩ := h b hb
     exact ⟨g1, shape_cut_of_eraseIdx b.shape P.length P Q g2 rfl (by rw [g3, her])⟩
-  obtain ⟨r, h1, h2, h3, h4⟩ := concatenate_cut zero P Q hP hQ a0 rest hcut
+  obtain ⟨r, h1, h2, h3, h4⟩ := concatenate_cut zero P Q a0 rest hcut
   refine ⟨r, h1, ?_, h3, ?_⟩
   · rw [h2, hs, set_mid]
   · intro i hi c hc
